@@ -19,7 +19,7 @@ PROP = {
                       "request of another client is dropped; finding F6, pinned by the existing test rtc::errors::max_item_size_exceeded) "
                       "and proved for every run without oversized replies or with a provider that does not report reply errors (rfn) "
                       "(C19_reply_too_big); likewise an oversized REQUEST latches the send error in the client's request sender (finding "
-                      "F12: C19_request_too_big_refuted; C19_request_too_big for runs without such requests). Tie to the code: the C12 "
+                      "F14: C19_request_too_big_refuted; C19_request_too_big for runs without such requests). Tie to the code: the C12 "
                       "harness with a generator biased to dropped call futures (before the first poll, after it, queued, executing before "
                       "/ after the effect, replying), lost connections, undecodable requests and replies under the three policies, "
                       "cancellable and no_cancel methods on every flavour; scripted cases compared event by event with the extracted "
@@ -33,7 +33,7 @@ PROP = {
         "rule": "cases from one PRNG (VERIF_SEED) as for C12 but with frequent dropped calls (14% of the ops), futures dropped unpolled or "
                 "after their first poll, connection cuts, dropped clients, undecodable requests / replies (10% of the calls each); "
                 "every 24th case is a small scripted case of a known class: a reply above max_reply_size (signature F6:) or a request "
-                "above max_request_size (signature F12:) between ordinary calls of the same and of other clients; a case is "
+                "above max_request_size (signature F14:) between ordinary calls of the same and of other clients; a case is "
                 "non-trivial if a call was cancelled, skipped, dropped, failed, undecodable, or the connection was cut; distinct = distinct input",
         "assumptions": [
             "the postbag codec round-trips the request and reply types of the harness traits",
